@@ -28,6 +28,16 @@ def _stmt(it: Interp, lem: Lemma, env):
     return it.bterm(it.truth_term(r))
 
 
+def _valid(e):
+    """facts recorded while a statement was evaluated are usually tautologies about classes (is Unary => is Unary):
+    those need not become antecedents of the quantified lemma"""
+    from . import recfuns
+    s = z3.Solver()
+    s.set('timeout', 500)
+    s.add(z3.Not(recfuns.abstract(e)))
+    return s.check() == z3.unsat
+
+
 def lemma_as_hypothesis(it: Interp, lem: Lemma):
     """ForAll params. statement   (for `uses=`); the statement must evaluate without forking"""
     ct = classtable.get_table()
@@ -43,6 +53,7 @@ def lemma_as_hypothesis(it: Interp, lem: Lemma):
         del it.ex.st.pc[npc:]
     finally:
         it.ex.nofork -= 1
+    extra = [e for e in extra if not _valid(e)]
     if extra:
         t = z3.Implies(z3.And(*extra), t)
     pats = []
